@@ -29,7 +29,10 @@ NormState(s) == [s EXCEPT !.attesters = ToSet(@), !.used = ToSet(@), !.pairs = T
 NormObs(o) == [o EXCEPT !.post = NormState(@), !.junk = ToSet(@), !.writes = ToSet(@)]
 
 \* the observation seen as an Out record, for the history variable
-ObsOut(e, o) == [msg |-> e.msg, faults |-> e.faults, res |-> ResOf(o), resp |-> o.resp, calls |-> o.calls, evs |-> o.evs]
+ObsOut(e, o) ==
+  IF e.msg.type = "Batch"
+  THEN [msg |-> e.msg, faults |-> e.faults, res |-> ResOf(o), resp |-> o.resp, calls |-> o.calls, evs |-> o.evs, inner |-> o.inner]
+  ELSE [msg |-> e.msg, faults |-> e.faults, res |-> ResOf(o), resp |-> o.resp, calls |-> o.calls, evs |-> o.evs]
 
 TInit == /\ h \in 1..Len(Hs)
          /\ l = 0
